@@ -13,7 +13,7 @@ PROP = {
     "outside": "the real ThreadLocalCtxt (hash maps in thread-local storage: does not fit CBMC, DESIGN.md section 3) and with it real threads and "
                "TLS teardown; the unwinder itself (EnterGuard::drop / Frame::call / FrameFuture::poll are executed on the normal path with std::thread::panicking() symbolic "
                "in the std group); exits out of stack order (excluded by the property)",
-    "stubs": ["std::thread::panicking -> symbolic bool (c03_q_exit_while_panicking)", "Ctxt = array-backed harness implementation of the public trait (env::ArrCtxt): enter/exit swap the frame with the current slot, "
+    "stubs": ["std::thread::panicking -> symbolic bool (c03c04_q_exit_while_panicking)", "Ctxt = array-backed harness implementation of the public trait (env::ArrCtxt): enter/exit swap the frame with the current slot, "
               "open_root collects first-wins; open_push/open_disabled are the trait's real default methods"],
     "assumptions": ["frames are exited in stack order", "keys within a frame are distinct"],
     "level_text": "Bounded model checking of the generic frame discipline (the code every Ctxt shares); PARTIAL: the thread-local implementation itself is outside.",
